@@ -136,6 +136,22 @@ fn lifecycle(kind: &str) -> String {
             let n = rec.flushes();
             if n >= 3 { "ok".to_string() } else { format!("FAIL ticker-does-not-tick only {n} frames in 120 ms at a 2 ms interval") }
         }
+        // a ticker is (re-)installed on a bar whose earlier ticker has stopped by itself (finish), was disabled, or is still
+        // running with the same interval: in every case the bar is redrawn without manual ticks afterwards
+        "revive-after-finish" | "enable-after-disable" | "enable-twice" => {
+            pb.enable_steady_tick(Duration::from_millis(2));
+            std::thread::sleep(Duration::from_millis(40));
+            match kind {
+                "revive-after-finish" => { pb.finish(); std::thread::sleep(Duration::from_millis(60)); pb.reset(); }
+                "enable-after-disable" => { pb.disable_steady_tick(); }
+                _ => {}
+            }
+            pb.enable_steady_tick(Duration::from_millis(2));
+            let n0 = rec.flushes();
+            std::thread::sleep(Duration::from_millis(150));
+            let n = rec.flushes() - n0;
+            if n >= 3 { "ok".to_string() } else { format!("FAIL ticker-does-not-tick {kind}: only {n} frames in 150 ms after enable_steady_tick(2 ms)") }
+        }
         "manual-tick-noop" => {
             pb.enable_steady_tick(Duration::from_secs(3600));
             std::thread::sleep(Duration::from_millis(60));
@@ -188,7 +204,7 @@ pub fn run(seed: u64, tier: &str, out: &mut Out) {
         out.emit(&format!("NOMODEL SCHED a={a} park={c}{n} b={b} multi={multi}"), &format!(" ORACLE {v}"));
     }
     vh::set_observer(None);
-    for kind in ["ticks-without-manual", "manual-tick-noop", "finish-stops-ticks", "disable-prompt", "replace-prompt", "drop-prompt"] {
+    for kind in ["ticks-without-manual", "revive-after-finish", "enable-after-disable", "enable-twice", "manual-tick-noop", "finish-stops-ticks", "disable-prompt", "replace-prompt", "drop-prompt"] {
         let v = lifecycle(kind);
         out.emit(&format!("NOMODEL LIFECYCLE {kind}"), &format!(" ORACLE {v}"));
     }
